@@ -15,12 +15,13 @@ func init() {
 			ID: "C35", Title: "The shortest-path-tree computation is correct on every graph", Level: "other",
 			Technique:   "maybe-nil local analysis on go/cfg: a nil-initialised pointer local must be definitely assigned or nil-checked before every dereference",
 			DesignRef:   "DESIGN.md §4 C35",
-			Decided:     "necessary conditions of Dijkstra's algorithm that are visible as guards: (a) the greedy selection assigns the next node only from a candidate whose tentative distance is not the 'unreached' sentinel, and only when there is no choice yet or the candidate is strictly/weakly closer than the current choice (which is recorded together with it); (b) relaxation stores from.Distance + edge weight, and overwrites a reached node's distance only when that sum is smaller; (c) NewTopology stores every input edge — a guard on the weight may only exclude negative weights; and the panic clause: in package util/dijkstra no pointer local that starts as nil and is assigned only on some paths (the `next` candidate of the greedy selection) is dereferenced on a path that carries neither an assignment of a non-nil value nor a dominating nil test; additionally every map-typed field of Topology that SPT indexes for writing is made in NewTopology.",
+			Decided:     "(0) no function reachable from Topology.SPT stores into the Topology (its node or edge maps): a computation from one source leaves nothing behind for the next; necessary conditions of Dijkstra's algorithm that are visible as guards: (a) the greedy selection assigns the next node only from a candidate whose tentative distance is not the 'unreached' sentinel, and only when there is no choice yet or the candidate is strictly/weakly closer than the current choice (which is recorded together with it); (b) relaxation stores from.Distance + edge weight, and overwrites a reached node's distance only when that sum is smaller; (c) NewTopology stores every input edge — a guard on the weight may only exclude negative weights; and the panic clause: in package util/dijkstra no pointer local that starts as nil and is assigned only on some paths (the `next` candidate of the greedy selection) is dereferenced on a path that carries neither an assignment of a non-nil value nor a dominating nil test; additionally every map-typed field of Topology that SPT indexes for writing is made in NewTopology.",
 			NotDecided:  "that these guards add up to minimal distances on every graph is the algorithm's correctness proof, a numerical argument static analysis does not make; the rules are necessary conditions (breaking one breaks some graph), not sufficient ones.",
 			TrustedBase: stdTrusted,
 		},
 		Run: runC35,
 		Controls: []Control{
+			{Name: "spt-seeds-source-in-topology", File: "util/dijkstra/dijkstra.go", Old: "\tspt := t.newSPT()\n", New: "\tt.nodes[from] = 0\n\tspt := t.newSPT()\n", Expect: "spt-leaves-topology-untouched"},
 			{Name: "selection-takes-unreached-candidate", File: "util/dijkstra/dijkstra.go", Old: "\t\t\tif spt[candidate].Distance == -1 {\n\t\t\t\tcontinue\n\t\t\t}\n", New: "", Expect: "dijkstra-selection"},
 			{Name: "selection-prefers-farther", File: "util/dijkstra/dijkstra.go", Old: "\t\t\tif spt[candidate].Distance < nextDistance {", New: "\t\t\tif spt[candidate].Distance > nextDistance {", Expect: "dijkstra-selection"},
 			{Name: "zero-weight-edges-dropped", File: "util/dijkstra/dijkstra.go", Old: "\tfor _, e := range edges {\n", New: "\tfor _, e := range edges {\n\t\tif e.Distance <= 0 {\n\t\t\tcontinue\n\t\t}\n", Expect: "dijkstra-edges-stored"},
@@ -35,6 +36,7 @@ func init() {
 }
 
 func runC35(c *core.Ctx) {
+	sptReadsTopologyOnly(c)
 	p := c.P
 	fns := p.FuncsIn("util/dijkstra")
 	if len(fns) == 0 {
@@ -405,4 +407,64 @@ func constantInt(v interface{ ExactString() string }) (int64, bool) {
 	var x int64
 	_, err := fmt.Sscanf(v.ExactString(), "%d", &x)
 	return x, err == nil
+}
+
+// sptReadsTopologyOnly: the shortest-path computation is a function of (topology, source).  It is run once per source on
+// the same Topology; anything it stored in the Topology would leak into the next run.
+func sptReadsTopologyOnly(c *core.Ctx) {
+	const rule = "spt-leaves-topology-untouched"
+	p := c.P
+	c.Floor(rule, 1)
+	spt := c.MustFunc("util/dijkstra.(*Topology).SPT")
+	topo := p.Named("util/dijkstra", "Topology")
+	if spt == nil || topo == nil {
+		return
+	}
+	isTopoField := func(f *core.Fn, e ast.Expr) bool {
+		e = core.Unparen(e)
+		for {
+			switch x := e.(type) {
+			case *ast.IndexExpr:
+				e = core.Unparen(x.X)
+				continue
+			case *ast.StarExpr:
+				e = core.Unparen(x.X)
+				continue
+			}
+			break
+		}
+		fv := core.FieldOf(f.Pkg, e)
+		return fv != nil && ownerName(fv) == "Topology"
+	}
+	n := 0
+	for _, f := range p.ReachableFns(spt) {
+		if f.Decl.Body == nil {
+			continue
+		}
+		c.Analysed(f)
+		n++
+		bad := ""
+		var pos = f.Decl.Pos()
+		ast.Inspect(f.Decl.Body, func(nd ast.Node) bool {
+			switch x := nd.(type) {
+			case *ast.AssignStmt:
+				for _, l := range x.Lhs {
+					if isTopoField(f, l) {
+						bad, pos = "stores into "+core.ExprString(l), x.Pos()
+					}
+				}
+			case *ast.IncDecStmt:
+				if isTopoField(f, x.X) {
+					bad, pos = "changes "+core.ExprString(x.X), x.Pos()
+				}
+			case *ast.CallExpr:
+				if id, ok := x.Fun.(*ast.Ident); ok && id.Name == "delete" && len(x.Args) == 2 && isTopoField(f, x.Args[0]) {
+					bad, pos = "deletes from "+core.ExprString(x.Args[0]), x.Pos()
+				}
+			}
+			return true
+		})
+		c.Check(bad == "", rule, f.Name()+" only reads the topology", pos, "the shortest-path computation "+bad+": the Topology is shared by the runs from every source, so a later run starts from what an earlier one left behind (earlier sources count as reached at distance 0: distances too small, unreachable nodes reported reachable)")
+	}
+	_ = n
 }
